@@ -22,6 +22,7 @@ def run(ctx, db, tier):
     typestate(ctx, db)
     source_reset(ctx, db)
     consumers_clear(ctx, db)
+    self_inclusion(ctx, db)
     growth(ctx, db)
     value_writers(ctx, db)
     if ctx.cfg == 'assert':
@@ -447,3 +448,52 @@ def value_writers(ctx, db):
     for n, lst in found.items():
         f, e = lst[0]
         ctx.ob(rid, f, e['loc'], n not in bad and f.get('kind') == 'ctor', 'value written by constructor initialiser in %s' % n, desc='suspend_point::value written outside a constructor in ' + n)
+
+
+def _in_cycle(f, bid):
+    from ..core import reach_blocks
+    return any(bid in reach_blocks(f, s_) for s_ in f['_blocks'][bid]['succ'] if s_ >= 0)
+
+
+def self_inclusion(ctx, db):
+    """await_suspend (coroutine mode) queues every handle of the suspend point and then the awaiting coroutine itself unless it was among them.
+    The flag that remembers "my own handle was in the list" is computed in a loop: every write to it inside the loop must be monotone
+    (|=, or a constant true, or an expression over its old value), otherwise only the last handle scanned counts and an earlier own handle
+    is queued twice - the coroutine would be resumed twice"""
+    rid = ctx.rule('C06.self-inclusion', 'DATAFLOW', 'suspend_point::await_suspend: the push of the awaiting coroutine (param h) is guarded by a flag; every write to that flag inside the scan loop '
+                   'is monotone (|=, constant true, or mentions the flag itself): an own handle found early is not forgotten', floor=1)
+    for f, trs in traces_of(db, 'cocls::suspend_point::await_suspend', per_instance=False):
+        if not any('coroutine_handle' in p['type'] for p in f['params']):
+            continue
+        hname = 'param:' + f['params'][0]['name']
+        guard = None; unguarded = None
+        for tr in trs:
+            if not live(tr):
+                continue
+            for i, it in enumerate(tr):
+                if it.k == 'call' and it.get('depth', 0) == 0 and norm(it.get('callee') or '').endswith('::push') and any((a.get('path') or '') in (hname, 'ctor(%s)' % hname) for a in it.get('args', [])):
+                    g = None
+                    for b in reversed(tr[:i]):
+                        if b.k == 'branch' and b.get('depth', 0) == 0 and re.fullmatch(r'local:\w+', b.get('opath') or ''):
+                            g = b.get('opath'); break
+                    if g is None:
+                        unguarded = unguarded or tr
+                    else:
+                        guard = guard or g
+        if unguarded is not None or guard is None:
+            if guard is None and unguarded is None:
+                raise Broken('await_suspend no longer queues the awaiting coroutine: anchor changed')
+            ctx.ob(rid, f, f['key'], False, 'the awaiting coroutine is queued without a test whether its handle was already in the list', desc='own handle queued unguarded', trace=fmt_trace(unguarded))
+            continue
+        var = guard
+        ws = [e for e in f.events() if e.k == 'write' and e.get('path') == var and not e.get('init')]
+        bad = None
+        for e in ws:
+            b = f.block_of(e['id'])
+            if b is None or not _in_cycle(f, b):
+                continue
+            mono = (e.get('op') in ('|=',)) or (e.get('const') in (1, True) and (e.get('op') or '=') == '=') or (var in (e.get('rhs') or ''))
+            if not mono:
+                bad = bad or e
+        ctx.ob(rid, f, (bad or (ws[0] if ws else {'loc': f['key']}))['loc'], bad is None, 'the flag %s only ever accumulates inside the scan loop' % var.split(':')[1],
+               desc='self-inclusion flag overwritten inside the loop')
